@@ -22,7 +22,10 @@ EXTENDS Integers, Sequences, FiniteSets, TLC, Json
 
 CONSTANTS MaxOps   \* bound on the number of operators in a tree
 
-Atoms == {"a", "b", "K", "_"}     \* 'a', 'b', a bracket set ['a'-'c'], any character
+\* 'a', 'b', a bracket set ['a'-'c'], any character, a string "ab", end of input `$`,
+\* a built-in `$$ascii_digit` (two `$` tokens and an identifier in the real syntax)
+Atoms == {"a", "b", "K", "_", "S", "D", "B"}
+ClassAtoms == {"a", "b", "K", "_", "B"}
 
 Atom(x) == [k |-> "atom", x |-> x]
 Un(k, a) == [k |-> k, a |-> a]
@@ -31,7 +34,7 @@ Bin(k, a, b) == [k |-> k, a |-> a, b |-> b]
 \* operands of `#` must be character classes: atoms, unions and differences of classes
 RECURSIVE IsClass(_)
 IsClass(t) ==
-  CASE t.k = "atom" -> TRUE
+  CASE t.k = "atom" -> t.x \in ClassAtoms
     [] t.k \in {"alt", "diff"} -> IsClass(t.a) /\ IsClass(t.b)
     [] OTHER -> FALSE
 
